@@ -469,6 +469,15 @@ func (cr *caseRun) revive() {
 	if acLog := strings.Join(events, " | "); ex.log != acLog {
 		c.Fail("mismatch", "JSON.parse+reviver:calls", in, ex.log, acLog, "sorted="+canonLog(eventsCanon))
 	}
+	if out.Err == nil && out.Val.IsObject() && textDepth(in.Text) <= 200 {
+		// 15.12.2 Walk: revived properties are (re)defined writable, enumerable, configurable
+		if a, ok := cr.js("JSON.parse+reviver:attributes", "__attrs(__r)"); ok {
+			c.Eval(1)
+			if s := outcomeString(a); s != "T" {
+				c.Fail("mismatch", "JSON.parse+reviver:attributes", in, "T", s, "")
+			}
+		}
+	}
 	c.FeatureN("revive:calls", ex.ncalls)
 	if ex.multiKey {
 		c.Feature("revive:text-has-multi-key-object")
